@@ -97,6 +97,13 @@ def obs_line(line_cps):
     from gffutils.feature import feature_from_line
     line = dec(line_cps)
     try:
+        # parsed twice: the first result is edited IN PLACE (values appended / cleared, a key added) before the same text is parsed again -
+        # what a parse returns depends on the text alone, never on what a caller did with an earlier result
+        f0 = feature_from_line(line, keep_order=True)
+        for k, v in stored_items(f0.attributes):
+            if isinstance(v, list):
+                v.append("edited-by-an-earlier-caller")
+        f0.attributes["an_earlier_callers_key"] = ["x"]
         f = feature_from_line(line, keep_order=True)
         p = proj_feature(f)
         p["printed"] = enc(str(f))
